@@ -234,6 +234,13 @@ theorem witness_malleated (fl : Flags) (chk : Checker) (sig pk : Bytes) (wit : L
     verifyScript fl chk sig pk wit ≠ .ok () :=
   Lemmas.witness_malleated fl chk sig pk wit v p hw hwp hs
 
+/-- With the P2SH flag, a pay-to-script-hash output can only be spent by a push-only scriptSig (whatever
+the redeem script is). -/
+theorem p2sh_requires_push_only (fl : Flags) (chk : Checker) (sig pk : Bytes) (wit : List Bytes)
+    (hp : fl.p2sh = true) (hpk : isP2SH pk = true) (hpo : isPushOnly sig = false) :
+    verifyScript fl chk sig pk wit ≠ .ok () :=
+  Lemmas.p2sh_requires_push_only fl chk sig pk wit hp hpk hpo
+
 /-! ### signature encodings -/
 
 /-- `der_strict ⊆ der_lax`: a signature that satisfies the strict DER rule (BIP66, as enforced under
